@@ -468,7 +468,7 @@ func genEntries(rt *rapid.T, endpoint string, local bool) []Entry {
 			}
 			if !local {
 				e.MIME = rapid.SampledFrom(mimes).Draw(rt, "mime")
-				e.ETag = vev.B(rapid.SampledFrom([]string{"", "abc", `W/"x\y" é`, "a\x00\x80", `"`, "1a2b3c", "a b"}).Draw(rt, "etag"))
+				e.ETag = vev.B(rapid.SampledFrom([]string{"", "abc", `W/"x\y" é`, "a\x00\x80", `"`, "1a2b3c", "a b", `"quoted"`}).Draw(rt, "etag"))
 			}
 			l = append(l, e)
 		}
